@@ -22,6 +22,12 @@ const (
 	KB = 1024
 	MB = 1024 * KB
 
+	// MinBufSize is the smallest receive and send buffer size a peer may
+	// announce in a HEL or ACK message.
+	//
+	// Specification: Part 6, 7.1.2.3
+	MinBufSize = 8192
+
 	DefaultReceiveBufSize = 0xffff
 	DefaultSendBufSize    = 0xffff
 	DefaultMaxChunkCount  = 512
@@ -178,6 +184,12 @@ type Conn struct {
 	id  uint32
 	ack *Acknowledge
 
+	// peerMaxMessageSize and peerMaxChunkCount are the limits the peer
+	// announced in its HEL or ACK message for the messages it accepts.
+	// Zero means no limit.
+	peerMaxMessageSize uint32
+	peerMaxChunkCount  uint32
+
 	closeOnce sync.Once
 }
 
@@ -209,6 +221,18 @@ func (c *Conn) MaxMessageSize() uint32 {
 
 func (c *Conn) MaxChunkCount() uint32 {
 	return c.ack.MaxChunkCount
+}
+
+// PeerMaxMessageSize returns the size of the largest message the peer
+// accepts as announced during the HEL/ACK handshake. Zero means no limit.
+func (c *Conn) PeerMaxMessageSize() uint32 {
+	return c.peerMaxMessageSize
+}
+
+// PeerMaxChunkCount returns the largest number of chunks per message the
+// peer accepts as announced during the HEL/ACK handshake. Zero means no limit.
+func (c *Conn) PeerMaxChunkCount() uint32 {
+	return c.peerMaxChunkCount
 }
 
 func (c *Conn) Close() (err error) {
@@ -259,6 +283,19 @@ func (c *Conn) Handshake(ctx context.Context, endpoint string) error {
 		if ack.Version != 0 {
 			return errors.Errorf("uacp: invalid version %d", ack.Version)
 		}
+		if ack.ReceiveBufSize < MinBufSize || ack.SendBufSize < MinBufSize {
+			return errors.Errorf("uacp: invalid buffer sizes in ACK: %d/%d", ack.ReceiveBufSize, ack.SendBufSize)
+		}
+		debug.Printf("uacp %d: recv %#v", c.id, ack)
+
+		// The ACK carries the limits of the server for what it receives.
+		// They bound what we send.
+		c.peerMaxMessageSize = ack.MaxMessageSize
+		c.peerMaxChunkCount = ack.MaxChunkCount
+
+		// What we accept is what we announced in the HEL. If we did not
+		// announce a message size or chunk count limit we use what the
+		// server uses.
 		if ack.MaxChunkCount == 0 {
 			ack.MaxChunkCount = DefaultMaxChunkCount
 			debug.Printf("uacp %d: server has no chunk limit. Using %d", c.id, ack.MaxChunkCount)
@@ -267,8 +304,15 @@ func (c *Conn) Handshake(ctx context.Context, endpoint string) error {
 			ack.MaxMessageSize = DefaultMaxMessageSize
 			debug.Printf("uacp %d: server has no message size limit. Using %d", c.id, ack.MaxMessageSize)
 		}
+		if c.ack.MaxChunkCount != 0 {
+			ack.MaxChunkCount = c.ack.MaxChunkCount
+		}
+		if c.ack.MaxMessageSize != 0 {
+			ack.MaxMessageSize = c.ack.MaxMessageSize
+		}
+		ack.SendBufSize = min(c.ack.SendBufSize, ack.ReceiveBufSize)
+		ack.ReceiveBufSize = c.ack.ReceiveBufSize
 		c.ack = ack
-		debug.Printf("uacp %d: recv %#v", c.id, ack)
 		return nil
 
 	case "ERRF":
@@ -308,6 +352,24 @@ func (c *Conn) srvhandshake(endpoint string) error {
 		//	c.SendError(ua.StatusBadTCPEndpointURLInvalid)
 		//	return fmt.Errorf("uacp: invalid endpoint url %s", hel.EndpointURL)
 		//}
+		if hel.ReceiveBufSize < MinBufSize || hel.SendBufSize < MinBufSize {
+			c.SendError(ua.StatusBadTCPInternalError)
+			return errors.Errorf("uacp: invalid buffer sizes in HEL: %d/%d", hel.ReceiveBufSize, hel.SendBufSize)
+		}
+
+		// Revise the limits for this connection: do not send chunks larger
+		// than the client can receive and do not expect chunks larger than
+		// the client sends. c.ack is shared by all connections of the listener.
+		ack := *c.ack
+		ack.ReceiveBufSize = min(c.ack.ReceiveBufSize, hel.SendBufSize)
+		ack.SendBufSize = min(c.ack.SendBufSize, hel.ReceiveBufSize)
+		c.ack = &ack
+
+		// The HEL carries the limits of the client for what it receives.
+		// They bound what we send.
+		c.peerMaxMessageSize = hel.MaxMessageSize
+		c.peerMaxChunkCount = hel.MaxChunkCount
+
 		if err := c.Send("ACKF", c.ack); err != nil {
 			c.SendError(ua.StatusBadTCPInternalError)
 			return err
